@@ -362,7 +362,7 @@ int main(int argc, char** argv) {
             double dSolid = sdq >= 0 ? 0 : -sdq;
             run.residual("box-solid-point-distance", std::abs((q - pb).norm() - dSolid) / L, 1e-14, where, rp);
             run.residual("box-solid-point-in-box", std::max(0.0, -S.sdRef(pb)) / L, 1e-14, where, rp);
-            run.residual("box-distance-sqr", std::abs(box.findDistanceSqrToPoint(q) - dSolid * dSolid) / (L * L), 1e-14, where, rp);
+            run.residual("box-distance-sqr", std::abs(box.findDistanceSqrToPoint(q) - dSolid * dSolid) / (L * L), 1e-13, where, rp);
             if (definite) {
                 run.expect(wasIn1 == (sdq > 0) && wasIn2 == (sdq > 0), "box-inside-flag", [&] { return "Geo::Box inside flag wrong at " + where(); }, rp);
                 run.expect(box.containsPoint(q) == (sdq > 0), "box-containsPoint", [&] { return "Geo::Box::containsPoint wrong at " + where(); }, rp);
@@ -415,7 +415,7 @@ int main(int argc, char** argv) {
             run.residual("nearest-is-closest/" + sub + "/" + cls, std::max(0.0, (q - p).norm() - dq) / L, tolDist, where, rp);
             // (d) normal: unit, outward normal of the surface at p, and (smooth shapes) p-q parallel to it
             if (nOK) {
-                run.residual("nearest-normal-unit", std::abs(Vec3(n1).norm() - 1), 1e-14, where, rp, S.kind);
+                run.residual("nearest-normal-unit", std::abs(Vec3(n1).norm() - 1), 1e-13, where, rp, S.kind);
                 if (S.kind == "Mesh") {
                     double bestN = INFINITY; bool facing = false;
                     for (auto& f : S.mesh.f) {
@@ -518,12 +518,12 @@ int main(int argc, char** argv) {
             for (int a = 0; a < 3; ++a) {
                 bool ok; double d = gk::fd1([&](double s) { Vector y = x; y[a] += s; return F.calcValue(y); }, h, 1e-7 * fsf / L, ok);
                 if (!ok) { run.count("fd-skipped:function-gradient"); continue; }
-                run.residual("function-derivative-vs-fd", std::abs(d - gf[a]) * L / fsf, 1e-6, where, rp, S.kind);
+                run.residual("function-derivative-vs-fd", std::abs(d - gf[a]) * L / fsf, 3e-6, where, rp, S.kind);
                 for (int b = 0; b < 3; ++b) {
                     Array_<int> c2(2); c2[0] = a; c2[1] = b;
                     bool ok2; double d2 = gk::fd1([&](double s) { Vector y = x; y[b] += s; Array_<int> c(1, a); return F.calcDerivative(c, y); }, h, 1e-7 * fsf / (L * L), ok2);
                     if (!ok2) { run.count("fd-skipped:function-hessian"); continue; }
-                    run.residual("function-second-derivative-vs-fd", std::abs(d2 - F.calcDerivative(c2, x)) * L * L / fsf, 1e-6, where, rp, S.kind);
+                    run.residual("function-second-derivative-vs-fd", std::abs(d2 - F.calcDerivative(c2, x)) * L * L / fsf, 3e-6, where, rp, S.kind);
                 }
             }
         }
@@ -531,12 +531,12 @@ int main(int argc, char** argv) {
         for (int a = 0; a < 3; ++a) {
             bool ok; double d = gk::fd1([&](double s) { Vec3 t = q; t[a] += s; return g.calcSurfaceValue(t); }, h, 1e-7 * fs / L, ok);
             if (!ok) { run.count("fd-skipped:gradient"); continue; }
-            run.residual("gradient-vs-fd", std::abs(d - gr[a]) * L / fs, 1e-6, where, rp, S.kind);
+            run.residual("gradient-vs-fd", std::abs(d - gr[a]) * L / fs, 3e-6, where, rp, S.kind);
         }
         for (int a = 0; a < 3; ++a) for (int b = 0; b < 3; ++b) {
             bool ok; double d = gk::fd1([&](double s) { Vec3 t = q; t[b] += s; return g.calcSurfaceGradient(t)[a]; }, h, 1e-7 * fs / (L * L), ok);
             if (!ok) { run.count("fd-skipped:hessian"); continue; }
-            run.residual("hessian-vs-fd", std::abs(d - H(a, b)) * L * L / fs, 1e-6, where, rp, S.kind);
+            run.residual("hessian-vs-fd", std::abs(d - H(a, b)) * L * L / fs, 3e-6, where, rp, S.kind);
         }
         run.residual("hessian-symmetric", (H - H.transpose()).norm() * L * L / fs, 1e-14, where, rp, S.kind);
         // unit normal = -gradient/|gradient| (documented: outward, function positive inside)
@@ -755,8 +755,8 @@ int main(int argc, char** argv) {
         if (unspecified) { run.count("unspecified:ray-grazing-or-on-surface"); return; }
         if (!run.expect(hit == refHit, std::string(refHit ? "ray-missed-hit/" : "ray-phantom-hit/") + S.kind, [&] { return "intersectsRay=" + std::to_string(hit) + " reference=" + std::to_string(refHit) + " (t=" + sd(tRef) + ") at " + where(); }, rp)) return;
         if (hit && std::isfinite(dist)) {
-            run.residual("ray-distance/" + S.kind, std::abs(dist - tRef) / L, 1e-9, where, rp);
-            if (gk::finite3(Vec3(n)) && !(S.kind == "Mesh" && S.meshSmooth)) run.residual("ray-normal/" + S.kind, (Vec3(n) - nRef).norm(), 1e-7, where, rp);
+            run.residual("ray-distance/" + S.kind, std::abs(dist - tRef) / L, 1e-11, where, rp);
+            if (gk::finite3(Vec3(n)) && !(S.kind == "Mesh" && S.meshSmooth)) run.residual("ray-normal/" + S.kind, (Vec3(n) - nRef).norm(), 1e-11, where, rp);
         }
         run.count(hit ? "ray-hits" : "ray-misses");
         run.outcome(verif::hashPod(hit ? dist : -1.0, verif::hashStr(S.kind)));
